@@ -149,7 +149,7 @@ def child(seed, ks):
 
 def run(chk):
     quick = chk.tier == 'quick'
-    n = 96 if quick else 2400
+    n = 160 if quick else 2400
     n_proc_scenes = 16 if quick else 400
     hashseeds = [0, 12345] if quick else [0, 1, 12345, 987654321]
     chk.rule = (f'{n} scenes (families split/synth/chain/multi/bundle/degenerate) each processed 3 times in-process under '
